@@ -981,12 +981,15 @@ func (r *stateResolverV2) getPowerLevelFromAuthEvents(event PDU) int64 {
 				}
 			}
 		}
-		if createEvent == nil {
-			panic("getPowerLevelFromAuthEvents: missing resolved create event, cannot calculate PL of sender!")
-		}
-		for _, creator := range CreatorsFromCreateEvent(createEvent) {
-			if creator == string(user) {
-				return CreatorPowerLevel
+		// Without a create event (e.g. ReverseTopologicalOrdering over a batch
+		// of events received over federation) nobody can be recognised as a
+		// creator; the power level is only a tie-break among events the DAG
+		// leaves unordered, so fall back to the power level events.
+		if createEvent != nil {
+			for _, creator := range CreatorsFromCreateEvent(createEvent) {
+				if creator == string(user) {
+					return CreatorPowerLevel
+				}
 			}
 		}
 		// otherwise they aren't a creator, so check the PL event.
